@@ -16,7 +16,7 @@ type Check struct {
 	ID      string
 	Run     func(p *load.Program, r *oblig.Report)
 	Expl    oblig.Explanation
-	Configs []load.Config // extra build configurations analysed in the thorough tier
+	Configs []load.Config // extra build configurations, analysed in both tiers
 	Light   bool          // the rules need no function bodies outside the module
 }
 
